@@ -122,6 +122,26 @@ def gen_chronicle(repo):
             and getattr(c.value.func, 'attr', None) == 'append' for c in n.body
         ):
             keep = n.test
+    # the keep test may live in a module-level predicate: `if pred(entry, after, before, status):` with
+    # `completed = datetime.fromisoformat(..); return <test>` inside; read its return expression instead
+    if isinstance(keep, ast.Call) and isinstance(keep.func, ast.Name) and not keep.keywords \
+            and all(isinstance(a, ast.Name) for a in keep.args):
+        hs = [d for d in tree.body if isinstance(d, ast.FunctionDef) and d.name == keep.func.id]
+        if len(hs) == 1 and len(hs[0].args.args) == len(keep.args):
+            import copy
+            bind = {p.arg: a.id for p, a in zip(hs[0].args.args, keep.args)}
+            body = [x for x in hs[0].body if not (isinstance(x, ast.Expr) and isinstance(x.value, ast.Constant))]
+            if not (body and isinstance(body[-1], ast.Return) and all(
+                    isinstance(x, ast.Assign) and len(x.targets) == 1 and isinstance(x.targets[0], ast.Name)
+                    and 'fromisoformat' in ast.unparse(x.value) for x in body[:-1])):
+                raise Untranslatable(f'{CHRON}:_load: predicate {keep.func.id} outside the subset')
+            for x in body[:-1]:
+                bind[x.targets[0].id] = 'completed'
+
+            class Sub(ast.NodeTransformer):
+                def visit_Name(self, n):   # pylint: disable=invalid-name
+                    return ast.Name(id=bind.get(n.id, n.id), ctx=n.ctx)
+            keep = Sub().visit(copy.deepcopy(body[-1].value))
     if status is None:
         raise Untranslatable(f"{CHRON}:_load: `status = <word> if succeeded else <word>` not found")
     if keep is None:
